@@ -255,17 +255,18 @@ pub fn nth_case(seed: u64, idx: u64) -> Case {
     }
 }
 
-/// towards the edge of the theorems' domain: explicit counts up to 64, lines in [-64,64], spans up to 64, up to 10 children
+/// larger than the other families (kept moderate: the model runs under vm_compute): explicit counts up to 24, lines in
+/// [-30,30], spans up to 16, up to 6 children
 pub fn large_case(rng: &mut Rng) -> Case {
-    let ec = *rng.pick(&[0i64, 1, 7, 30, 64]);
-    let er = *rng.pick(&[0i64, 2, 9, 33, 64]);
+    let ec = *rng.pick(&[0i64, 1, 7, 16, 24]);
+    let er = *rng.pick(&[0i64, 2, 9, 17, 24]);
     let flow = rng.below(4) as i64;
-    let n = 1 + rng.below(10) as usize;
+    let n = 1 + rng.below(6) as usize;
     let mut pl = |rng: &mut Rng| match rng.below(10) {
         0..=3 => (0, 0),
-        4..=5 => (1, rng.below(129) as i64 - 64),
-        6 => (1, *rng.pick(&[-64i64, -63, -1, 1, 63, 64])),
-        7 => (2, 1 + rng.below(64) as i64),
+        4..=5 => (1, rng.below(61) as i64 - 30),
+        6 => (1, *rng.pick(&[-30i64, -25, -1, 1, 25, 30])),
+        7 => (2, 1 + rng.below(16) as i64),
         _ => (2, 1 + rng.below(4) as i64),
     };
     let children = (0..n)
